@@ -302,6 +302,12 @@ func recvAgainstRef(r *Run, fs framingSpec, ch channel.Channel, ref refDecoder, 
 			}
 		case xRecordOpt:
 			tail = true
+			if err == io.EOF && len(data) == 0 {
+				// the value may be reported as cut off, but not dropped: a clean end
+				// of stream says that nothing was there
+				r.Fail("truncated-record-without-error", "%s: Recv %d reported a clean end of stream (io.EOF) although the stream holds %s at this point (%s)", fs.Name, i, preview(exp.Rec), exp.Why)
+				return
+			}
 			if err == nil && !same(exp.Rec) {
 				r.Fail("fabricated-or-altered-record", "%s: Recv %d returned %s without error; the header declares the %d-byte record %s (%s)", fs.Name, i, preview(data), len(exp.Rec), preview(exp.Rec), exp.Why)
 				return
